@@ -161,7 +161,8 @@ def planDdl (h : Heap) (clock : Nat) (v : View) : DStmt → DPlan
       | some idxs =>
         let ts' : TableSchema :=
           { ts with cols := if pk then setNotNullAt ts.cols idxs true else ts.cols, uniques := ts.uniques ++ [idxs] }
-        if !constraintsHold [ts'] (rowsOf v ts.name) then failD .other
+        if pk && !(rowsOf v ts.name).all (fun r => notNullOk ts'.cols r.vals) then failD .constraint
+        else if !constraintsHold [ts'] (rowsOf v ts.name) then failD .other
         else ⟨[.upd m.rid 1 (.int clock)], .okN 0, some ts'⟩
   | .addColumn t c d =>
     match resolve h v t with
